@@ -477,16 +477,17 @@ class AnnotationCollection(AbstractFeatureIntervalCollection):
 
         chrom_ancestor = self.lift_over_to_first_ancestor_of_type(SequenceType.CHROMOSOME)
 
-        # if this subset operation is about to walk off the edge of the chunk this collection exists on,
-        # don't allow this
-        if self.is_chunk_relative and start < self.chromosome_location.start:
-            start = self.chromosome_location.start
+        # if this subset operation is about to walk off the stretch this collection has sequence for (its bounds
+        # cut to the sequence chunk it exists on), don't allow this
+        if start < chrom_ancestor.start:
+            start = chrom_ancestor.start
+        if end > chrom_ancestor.end:
+            end = chrom_ancestor.end
+        # nothing of the requested interval lies on the sequence
+        if start >= end:
+            return None
         chunk_relative_start = chrom_ancestor.parent_to_relative_pos(start)
 
-        # if this subset operation is about to walk off the edge of the chunk this collection exists on,
-        # don't allow this
-        if self.is_chunk_relative and end > self.chromosome_location.end:
-            end = self.chromosome_location.end
         # `end` is exclusive: convert the last included position (also covers end == self.end)
         chunk_relative_end = chrom_ancestor.parent_to_relative_pos(end - 1) + 1
 
@@ -638,6 +639,7 @@ class AnnotationCollection(AbstractFeatureIntervalCollection):
 
         # if completely within is False, expand the range of seq_chunk_parent to retain the full span
         # of all child intervals. This prevents features getting cut in half.
+        query_start, query_end = start, end
         if expand_location_to_children is True and completely_within is False:
             for g_or_fc in itertools.chain(features_collections_to_keep, genes_to_keep):
                 if g_or_fc.start < start:
@@ -648,7 +650,8 @@ class AnnotationCollection(AbstractFeatureIntervalCollection):
         # if there is a sequence chunk, then some validation checks must be performed
         if self.chunk_relative_location.parent and self.chunk_relative_location.parent.sequence:
             # not possible to expand range if it exceeds parent bounds
-            if start < self.start or end > self.end:
+            seq_range = self.lift_over_to_first_ancestor_of_type(SequenceType.CHROMOSOME)
+            if (start < query_start or end > query_end) and (start < seq_range.start or end > seq_range.end):
                 raise InvalidQueryError(
                     f"Cannot expand range of location to {start}-{end} because the associated sequence chunk "
                     f"lies from {self.start}-{self.end}"
